@@ -265,4 +265,83 @@ Definition hpa_probs (c : config) (xs : list T) : result (list T) :=
 Definition hpa_forward (c : config) (xs : list T) (us : list (list T)) : result (list (list bool)) :=
   if valid_step c then Ok (bern_homogeneous (Z.to_nat (c_steps c)) (c_dt c) (scaled_inputs (c_freq c) xs) us)
   else Err EValue.
+(* ------------------------------------------------------------------ configuration through setters
+   [encoders/mixins.py, poisson.py, special.py property setters], as they are written.
+   State of an encoder object: the private fields.  e_derive / e_refrac are RefractoryStepMixin's
+   __derive_refrac / __refrac_time (only meaningful for HomogeneousPoissonEncoder).
+   An assignment returns the state afterwards and the exception it raised, if any (2 ValueError);
+   a raising setter may already have changed a field. *)
+Record estate := mkE { e_steps : Z; e_dt : T; e_freq : T; e_comp : bool; e_derive : bool; e_refrac : T }.
+Inductive enc_kind := KHpe | KHpa | KPie.
+Inductive assignment :=
+| ADt (v : T) | ASteps (z : Z) | AFreq (v : T) | ARefrac (o : option T) | AComp (b : bool).
+
+(* constructors (validation as in valid_step / valid_refrac) *)
+Definition construct (k : enc_kind) (c : config) : result estate :=
+  if valid_step c && (match k with KHpe => valid_refrac c | _ => true end) then
+    Ok (mkE (c_steps c) (c_dt c) (c_freq c) (c_comp c)
+            (match c_refrac c with None => true | Some _ => false end) (enc_refrac c))
+  else Err EValue.
+
+(* argtest.lt("...", a * b, 1000) *)
+Definition compat (a b : T) : bool := ltb N (mul N a b) (ofZ N 1000).
+
+Definition assign (k : enc_kind) (s : estate) (a : assignment) : estate * option Z :=
+  match a with
+  | ADt v =>
+      (* StepTimeMixin.dt: argtest.gt; RefractoryStepMixin.dt additionally re-pins a derived refrac *)
+      if ltb N (zero N) v then
+        (mkE (e_steps s) v (e_freq s) (e_comp s) (e_derive s)
+             (match k with KHpe => if e_derive s then v else e_refrac s | _ => e_refrac s end), None)
+      else (s, Some EValue)
+  | ASteps z =>
+      if (0 <? z)%Z then (mkE z (e_dt s) (e_freq s) (e_comp s) (e_derive s) (e_refrac s), None)
+      else (s, Some EValue)
+  | AFreq v =>
+      match k with
+      | KHpa | KPie =>                    (* argtest.gte("frequency", value, 0) *)
+          if leb N (zero N) v then (mkE (e_steps s) (e_dt s) v (e_comp s) (e_derive s) (e_refrac s), None)
+          else (s, Some EValue)
+      | KHpe =>
+          if e_comp s && negb (compat v (e_refrac s)) then (s, Some EValue)
+          else if leb N (zero N) v then (mkE (e_steps s) (e_dt s) v (e_comp s) (e_derive s) (e_refrac s), None)
+          else (s, Some EValue)
+      end
+  | ARefrac o =>
+      match k with
+      | KHpe =>
+          if e_comp s && negb (compat (match o with None => e_dt s | Some v => v end) (e_freq s))
+          then (s, Some EValue)
+          else match o with
+               | None =>
+                   (* __derive_refrac = True; __refrac_time = self.dt *)
+                   (mkE (e_steps s) (e_dt s) (e_freq s) (e_comp s) true (e_dt s), None)
+               | Some v =>
+                   (* __derive_refrac = False happens before the value is validated *)
+                   if leb N (zero N) v then (mkE (e_steps s) (e_dt s) (e_freq s) (e_comp s) false v, None)
+                   else (mkE (e_steps s) (e_dt s) (e_freq s) (e_comp s) false (e_refrac s), Some EValue)
+               end
+      | _ => (s, None)      (* not a property of these classes; not generated *)
+      end
+  | AComp b =>
+      match k with
+      | KHpe =>
+          if b && negb (compat (e_freq s) (e_refrac s)) then (s, Some EValue)
+          else (mkE (e_steps s) (e_dt s) (e_freq s) b (e_derive s) (e_refrac s), None)
+      | _ => (s, None)
+      end
+  end.
+
+(* a program of assignments: state after each and the exception raised *)
+Fixpoint assign_all (k : enc_kind) (s : estate) (l : list assignment) : list (estate * option Z) * estate :=
+  match l with
+  | [] => ([], s)
+  | a :: t => let r := assign k s a in
+              let '(rest, fin) := assign_all k (fst r) t in (r :: rest, fin)
+  end.
+Definition run_assign (k : enc_kind) (s : estate) (l : list assignment) : estate := snd (assign_all k s l).
+
+(* what forward reads: self.steps, self.dt, self.frequency, self.refrac, self.compensated *)
+Definition forward_config (s : estate) : config :=
+  mkConfig (e_steps s) (e_dt s) (e_freq s) (Some (e_refrac s)) (e_comp s).
 End Model.
